@@ -160,6 +160,10 @@ def json_charge(battr):
 
 
 # ---------------------------------------------------------------- SimProbe
+class StepLimitExceeded(Exception):
+    """Raised by the probe when a run exceeds its bounded-progress limit (C01 termination)."""
+
+
 class SimProbe:
     """Records the per-period event trace of one Simulator through public methods.
 
@@ -177,6 +181,7 @@ class SimProbe:
         self.warnings = []
         self.exception = None
         self.steps = 0
+        self.step_limit = None
         self._wraps = []
 
     def attach(self):
@@ -222,6 +227,8 @@ class SimProbe:
         t = sim.iteration
         self.trace.append((t, "X", None))
         self.steps += 1
+        if self.step_limit is not None and self.steps > self.step_limit:
+            raise StepLimitExceeded(f"{self.steps} periods simulated, bound {self.step_limit}")
         if not self.snapshots:
             return
         net = sim.network
